@@ -1,2 +1,29 @@
 import Gopki.Base.Forest2
 import Gopki.Model.Db
+/-! # C18 — broken hierarchies are refused up front; non-config files are left alone
+
+`Forest.bfs_main`: with distinct aliases the worklist loop of `IsConsistent` / `PlanBulkUpdate` terminates
+within n+1 steps (the Go loop has no fuel; the theorem shows the fuelled model is the loop), visits each
+alias at most once, parents before children.  `Forest.consistent_iff`: the count test succeeds iff every
+entity is `Rooted` (finite issuer chain ending in a self-signed entity, every link defined), i.e. no
+dangling issuer and no cycle.  Below: the instance for the database model. -/
+namespace C18
+open Db Forest
+
+/-- **C18**: with distinct aliases `IsConsistent` accepts exactly the hierarchies in which every entity
+    reaches a root — no undefined issuer alias and no cycle — for hierarchies of any size -/
+theorem C18_isConsistent_iff (s : State) (hn : (aliases s.ents).Nodup) :
+    isConsistent s = true ↔ ∀ a ∈ aliases s.ents, Rooted s.ents a := by
+  obtain ⟨v, hv, hiff⟩ := consistent_iff s.ents hn
+  have hlen : (aliases s.ents).length = s.entities.length := by simp [aliases, State.ents]
+  unfold isConsistent
+  rw [← hlen, hv]
+  simp only [decide_eq_true_eq]
+  exact hiff
+
+/-- non-vacuity / regression: a configuration naming itself as issuer is not rooted — refused like any other cycle;
+    a root with one subscriber is accepted -/
+example : Forest.bfs ([("x", some "x")] : Forest.Ents String) 2 [] (Forest.roots [("x", some "x")]) = some [] := by decide
+example : Forest.bfs ([("r", none), ("s", some "r")] : Forest.Ents String) 3 [] (Forest.roots [("r", none), ("s", some "r")]) = some ["r", "s"] := by decide
+
+end C18
